@@ -168,11 +168,18 @@ def check_hip_runs(m, ctx, d):
     rnd = ctx.rng
     rows = [r for r in d['params'] if r['cls'] == 'HIP_RA_X']
     outs = [o for o in d['outs'] if o['cls'] == 'HIP_RA_X']
-    base = []
-    for r in rows:          # every input in its default unit, values around the shipped example
-        p = r['param']
-        v = F(float(p.value))
-        base.append((r['name'], m.sig7(v * F(rnd.randint(90, 110), 100)) if r['kind'] == 'float' and float(p.Min) < v * F(9, 10) and v * F(11, 10) < float(p.Max) else format(float(v), 'g')))
+    # the shipped example (every entry in its default unit), numbers moved by up to 10 % with ctx.rng
+    given = {}
+    for l in (fw.REPO / 'tests' / 'hip_ra_x_tests' / 'examples' / 'HIP-RA-X_example1.txt').read_text().splitlines():
+        parts = [x.strip() for x in l.split(',')]
+        if len(parts) >= 2 and not l.startswith(('#', '--', '*')):
+            given[parts[0]] = parts[1]
+    base, rows = [], [r for r in rows if r['name'] in given]
+    for r in rows:
+        p, v = r['param'], F(given[r['name']])
+        w = v * F(rnd.randint(90, 110), 100)
+        base.append((r['name'], m.sig7(w) if r['kind'] == 'float' and float(p.Min) < w < float(p.Max) else given[r['name']]))
+    base += [(k, v) for k, v in given.items() if k not in dict(base)]
     btext = runner.params_to_text(base)
     variants = []
     for r in rows:
@@ -281,3 +288,97 @@ def catalogue_coverage(m, ctx, d, cases):
     ctx.count('catalogue-coverage', evaluations=len(pairs), nontrivial_keys=sorted(good), pairs_parameter_x_unit=total)
     ctx.distribution.setdefault('catalogue-coverage', {})['per_unit_class'] = {ut: dict(sorted(v.items())) for ut, v in sorted(per.items())}
     ctx.note('C06_catalogue coverage over (parameter, catalogue unit) pairs: ' + '; '.join(f'{k}: {v}' for k, v in sorted(total.items(), key=lambda kv: -kv[1])))
+
+
+# ---------------------------------------------------------------------------------------------------------------
+# profile tables of the report under a "Units:<output>, <unit>" request: a changed column must be the old column times
+# the conversion factor, under a header that shows the requested unit
+# ---------------------------------------------------------------------------------------------------------------
+
+PAREN = re.compile(r'\(([^()]*)\)')
+
+
+def is_unit_header(line):
+    rest = PAREN.sub('', line).replace('|', '').replace('Start', '').strip()
+    return rest == '' and len(PAREN.findall(line)) >= 2
+
+
+def is_data_row(m, line):
+    return bool(line.strip()) and re.sub(m.NUM, '', line).replace('|', '').strip() == '' and len(re.findall(m.NUM, line)) >= 2
+
+
+def columns(m, header, row):
+    """-> for every number of the data row (span order) the header token (index into PAREN.finditer(header)) above it, or None.
+    Sections between '|' are matched separately; inside a section by order when the counts fit, else by horizontal position."""
+    def cut(s):
+        out, pos = [], 0
+        for part in s.split('|'):
+            out.append((pos, pos + len(part)))
+            pos += len(part) + 1
+        return out
+    hs = [(i, mt.start(), mt.end()) for i, mt in enumerate(PAREN.finditer(header))]
+    ns = [(mt.start(), mt.end()) for mt in re.finditer(m.NUM, row)]
+    secs_h, secs_r = cut(header), cut(row)
+    if len(secs_h) != len(secs_r):
+        secs_h, secs_r = [(0, len(header))], [(0, len(row))]
+    out = [None] * len(ns)
+    for k, ((h0, h1), (r0, r1)) in enumerate(zip(secs_h, secs_r)):
+        H = [h for h in hs if h0 <= h[1] < h1]
+        N = [j for j, n in enumerate(ns) if r0 <= n[0] < r1]
+        if k == 0 and len(N) == len(H) + 1:
+            N = N[1:]                            # the leading year / index column
+        if len(N) == len(H):
+            for j, h in zip(N, H):
+                out[j] = h[0]
+        else:
+            free = list(H)
+            for j in N:
+                c = (ns[j][0] + ns[j][1]) / 2 - r0 + h0
+                best = min(free, key=lambda h: abs((h[1] + h[2]) / 2 - c), default=None)
+                if best is not None and abs((best[1] + best[2]) / 2 - c) <= 9:
+                    out[j] = best[0]
+                    free.remove(best)
+    return out
+
+
+def table_diffs(m, d, base, var, requested, out_cur):
+    """-> [(kind, where, base text, variant text)] for table lines of the variant report that are not the base table converted"""
+    bl = [l for l in base.splitlines() if not m.MASK.search(l)]
+    vl = [l for l in var.splitlines() if not m.MASK.search(l)]
+    if len(bl) != len(vl):
+        return [], 0
+    norm = lambda t: t.replace(' ', '')
+    bad, changed, hdr, title = [], 0, None, ''
+    for i, (x, y) in enumerate(zip(bl, vl)):
+        if '*' in x and re.search(r'[A-Z]{4}', x):
+            title = x.strip('* ').strip()
+        if is_unit_header(x) and is_unit_header(y):
+            hdr = i
+            if x != y:
+                changed += 1
+                for a, b in zip(PAREN.findall(x), PAREN.findall(y)):
+                    if a != b and norm(b) != norm(requested):
+                        bad.append(('table-header', title, x.strip(), y.strip()))
+            continue
+        if x == y or not (is_data_row(m, x) and is_data_row(m, y)) or hdr is None:
+            continue
+        changed += 1
+        nx, ny = re.findall(m.NUM, x), re.findall(m.NUM, y)
+        if len(nx) != len(ny):
+            bad.append(('table', title, x.strip(), y.strip()))
+            continue
+        cb, cv = columns(m, bl[hdr], x), columns(m, vl[hdr], y)
+        ub_all, uv_all = PAREN.findall(bl[hdr]), PAREN.findall(vl[hdr])
+        for j, (a, b) in enumerate(zip(nx, ny)):
+            if a == b:
+                continue
+            ub = norm(ub_all[cb[j]]) if cb[j] is not None else None
+            uv = norm(uv_all[cv[j]]) if cv[j] is not None else None
+            if ub is not None and uv is not None and ub != uv and m.same_quantity(d, a, ub, b, uv):
+                continue                                         # converted column under a converted header
+            if ub == uv and m.same_quantity(d, a, out_cur, b, requested):
+                bad.append(('stale-header', f'{title}: column ({ub_all[cb[j]] if cb[j] is not None else "no unit"})', x.strip(), y.strip()))
+            else:
+                bad.append(('table', f'{title}: column ({ub_all[cb[j]] if cb[j] is not None else "no unit"})', x.strip(), y.strip()))
+            break
+    return bad, changed
